@@ -19,6 +19,14 @@ fn worlds(thorough: bool) -> Vec<Built> {
     v.push(stdworlds::build_with_roots(&stdworlds::splash_spec("c03-splash"), &splash_roots));
     // either token program: Token-2022 mints with different transfer fees (thresholds apply to what the trader receives / pays)
     v.push(stdworlds::build_with_roots(&stdworlds::t22_spec("c03-t22", 100, 5_000, 5_000, u64::MAX), if thorough { &roots[1..3] } else { &roots[1..2] }));
+    // a transfer-fee change pending on both mints: the Epoch op walks through the epoch before the newer schedule, the epoch it
+    // starts and the one after; thresholds must hold for what the trader really receives / pays under the schedule in force
+    let mut eve = roots[1].1.clone();
+    eve.push(Op::SetTransferFee { a: true, bps: 700, max: 2_000_000 });
+    eve.push(Op::SetTransferFee { a: false, bps: 20, max: 55 });
+    eve.push(Op::Epoch(1));
+    let sched_roots: Vec<(&'static str, Vec<Op>)> = vec![("fee-change-pending", eve)];
+    v.push(stdworlds::build_with_roots(&stdworlds::t22_spec("c03-t22-sched", 100, 5_000, 5_000, u64::MAX), &sched_roots));
     if thorough {
         let ts1_roots: Vec<(&'static str, Vec<Op>)> = vec![(
             "funded",
@@ -32,6 +40,9 @@ fn worlds(thorough: bool) -> Vec<Built> {
 fn alphabet(b: &Built) -> Vec<Op> {
     let v1 = b.w.pool.is_v1_capable();
     let mut a = vec![];
+    if b.name.contains("sched") {
+        a.push(Op::Epoch(1));
+    }
     for a_to_b in [true, false] {
         for (i, (exact_in, amount, lim)) in [
             (true, 1_000_000u64, Lim::None),
